@@ -51,6 +51,19 @@ DALEK = ("curve25519-dalek (Ristretto255 group law, 32-byte codec, scalar field)
          "codec laws dec(enc P)=P, dec b = P -> enc P = b, enc 0 = 0^32; the concrete Lean instance is validated bit-for-bit against dalek, not proved lawful")
 MERLIN = "merlin/keccak transcripts are an arbitrary function in the theorems and a concrete re-implementation in the driver (validated differentially)"
 
+def table_check(ctx):
+    """C10: the repository's precomputed table vs. the model's own computation of compress(2^17*h*G) (exhaustive, 65536 entries)"""
+    if ctx["tier"] != "thorough":
+        return [], []
+    path = "/repo/zk-sdk/src/encryption/decode_u32_precomputation_for_G.bincode"
+    p = subprocess.run([ctx["ZKMODEL"]], input=f"t dlogtable {path}\n", capture_output=True, text=True)
+    r = p.stdout.strip().partition(" ")[2]
+    if r == "ok:65536":
+        return [], [f"table-entry-block:{i}" for i in range(16)] + ["table:65536 entries equal"]
+    return [{"kind": "table", "line": f"dlogtable {path}", "impl": "bincode table", "model": r,
+             "note": "precomputed table differs from compress(2^17*h*G) -> h"}], []
+
+
 PROPS = {
     "C01": dict(module="ZkElGamal.Props.C01", ns="Zk.Props.C01", trusted=[DALEK, MERLIN], assumptions=[ROM, DALEK, MERLIN]),
     "C02": dict(module="ZkElGamal.Props.C02", ns="Zk.Props.C02", trusted=[DALEK, MERLIN], assumptions=[ROM, DALEK, MERLIN]),
@@ -83,6 +96,10 @@ PROPS = {
     "C09": dict(module="ZkElGamal.Props.C09", ns="Zk.Props.C09", trusted=[DALEK],
                 assumptions=[DALEK, "that a wrong key yields no 32-bit amount is a discrete-log statement: the theorem gives the exact target x*G + r(1-s'/s)*H; the run observes None",
                              "decrypt_u32 itself (the discrete-log search) is the subject of C10; here its result is compared with the plaintext known to the generator"]),
+    "C10": dict(module="ZkElGamal.Props.C10", ns="Zk.Props.C10", trusted=[DALEK], extra=[table_check],
+                assumptions=["TableSpec (the table maps exactly key(2^16*h*G) -> h; multiples of G below 2^33 distinct; key = compress(double) injective) is a hypothesis of the theorems: the table part is checked exhaustively by running the model (thorough tier), the group part is dalek's",
+                             "PARTIAL: real thread interleavings and spawn/join failure (map_while(join().ok())) cannot be exhibited by the model; repeated threaded runs are observed",
+                             "the verdict of the run uses the specification side of decode_spec (the generator knows the discrete log); the model's own search is run on a subsample in the thorough tier"]),
     "C11": dict(module="ZkElGamal.Props.C11", ns="Zk.Props.C11", trusted=[DALEK], assumptions=[DALEK]),
     "C12": dict(module="ZkElGamal.Props.C12", ns="Zk.Props.C12", trusted=[DALEK],
                 assumptions=[DALEK, "base64 / serde_json / bincode are external: modelled (standard alphabet, canonical padding and trailing bits; JSON array of u8) and compared differentially; serde forms beyond the JSON key files are not covered (PARTIAL)"]),
@@ -178,6 +195,11 @@ MANIFEST_TEXT = {
         text="Theorems: decryptTarget s (encryptWith (pubkeyOf s) x r) = x*G for every non-zero s and all x, r; grouped: toElGamal i = direct encryption under key i, handle i decrypts under key i, out-of-range index is none, for every group size; wrong key gives x*G + r(1-s'/s)*H, equal to x*G only if r = 0 or the keys coincide. "
              "Correspondence: encryption, decryption targets, decrypt_u32 against the known plaintext, grouped sizes 0..3 x indices 0..4, wrong keys, boundary amounts, zero openings.",
         note="Trusted: Lean kernel; dalek modelled (field/module); the 32-bit decode is C10's subject."),
+    "C10": dict(
+        technique="Lean 4 proof (decode_u32 = some x iff x < 2^32 and target = x*G, for the sequential search and every accepted thread count and batch size, under the table specification; refusal conditions) + differential correspondence + exhaustive table check by the executable model",
+        text="Theorems: with the table specified as key(2^16 h G) -> h (h < 2^16) and multiples of G below 2^33 distinct, decode_u32 returns some x exactly when x < 2^32 and target = x G — proved for the sequential search and for every thread count 2^k <= 65536 and every batch size >= 1 (batches partition the iteration; 'last match wins' is irrelevant because every match has the same value), hence configuration-independent; "
+             "thread counts are refused iff not a power of two <= 65536, batch sizes iff >= 2^16. Correspondence: targets at all structural boundaries (k*2^16 + {0,1,2^16-1}, per-thread and batch ends, 2^32-1, 2^32, -1, random), thread counts and batch sizes incl. non-dividing ones, refused configurations, repeated threaded runs; thorough: the repository's 65536-entry table compared with the model's computation, the model's own search on a subsample.",
+        note="Trusted: Lean kernel; dalek modelled; thread scheduling is runtime behaviour (PARTIAL)."),
     "C11": dict(
         technique="Lean 4 proof (module identities for every operator) + differential correspondence of all owned/borrowed operator variants against the model, byte-wise",
         text="Theorems for all scalars/amounts/openings/keys: with(x,r) = xG + rH; add/sub/scalar-mul on commitments, handles, ciphertexts commute with the operation on (amount, opening); add/subtract_amount change only the commitment by amount*G; decryption is linear (any combination). "
